@@ -1514,7 +1514,8 @@ class ProcessStartCommandModel(ProcessStartCommand):
         """ Replace the ProcessStatus by a partial copy. """
         mock_process = ProcessStatus(process.application_name, process.process_name, process.rules, process.supvisors)
         mock_process._state = process._state
-        mock_process.info_map = process.info_map.copy()
+        # NOTE: the model updates the process info, so the payloads themselves have to be copied
+        mock_process.info_map = {identifier: info.copy() for identifier, info in process.info_map.items()}
         super().__init__(mock_process, strategy)
 
     def start(self) -> None:
